@@ -130,25 +130,41 @@ theorem guard_is_read_only :
 then hands over to the backend writer without an `overwrite` argument (so the nested guard of
 `write_arrays` runs with overwrite off — the model's `apiWrite`) -/
 theorem guard_first_write_arrays_and_api :
-    guardShape writeArrays 0 "geff_store" = true ∧
-    names apiWrite = ["call:check_for_geff", "call:delete_geff", "raise:FileExistsError", "call:write"] ∧
-    guardShape apiWrite 0 "store" = true ∧ unconditional apiWrite 3 = true ∧
-    detailHas apiWrite 3 "overwrite=absent" = true ∧ detailHas apiWrite 3 "on=backend_io" = true ∧
-    names writeDicts = ["raise:ValueError", "call:write_arrays"] ∧ detailHas writeDicts 1 "overwrite=absent" = true := by
+    guardShape (core writeArrays) 0 "geff_store" = true ∧
+    names (core apiWrite) = ["call:check_for_geff", "call:delete_geff", "raise:FileExistsError", "call:write"] ∧
+    guardShape (core apiWrite) 0 "store" = true ∧ unconditional (core apiWrite) 3 = true ∧
+    detailHas (core apiWrite) 3 "overwrite=absent" = true ∧ detailHas (core apiWrite) 3 "on=backend_io" = true ∧
+    names (only ["call:write_arrays"] writeDicts) = ["call:write_arrays"] ∧
+    detailHas (only ["call:write_arrays"] writeDicts) 0 "overwrite=absent" = true := by
+  decide +kernel
+
+/-- **the guard looks at the location the writes use**: in every entry point a home-relative
+location is expanded (`v = remove_tilde(v)`, unconditionally) *before* the guard, and the guard,
+`delete_geff`, every array writer, the metadata write, validation and the clean-up are all handed
+that same variable — so `check_for_geff` cannot look at `~/x.geff` while the data goes to
+`/home/…/x.geff` -/
+theorem guard_sees_the_location_the_writes_use :
+    tildeBeforeGuard writeArrays "geff_store" "call:check_for_geff" = true ∧
+    storeArgsAre writeArrays "geff_store" = true ∧
+    tildeBeforeGuard apiWrite "store" "call:check_for_geff" = true ∧ storeArgsAre apiWrite "store" = true ∧
+    tildeBeforeGuard writeDicts "geff_store" "call:write_arrays" = true ∧ storeArgsAre writeDicts "geff_store" = true ∧
+    tildeBeforeGuard fromCtc "geff_path" "call:check_for_geff" = true ∧ storeArgsAre fromCtc "geff_path" = true ∧
+    tildeBeforeGuard fromTrackmate "geff_path" "call:_preliminary_checks" = true ∧
+    storeArgsAre fromTrackmate "geff_path" = true ∧ storeArgsAre preliminaryChecks "geff_path" = true := by
   decide +kernel
 
 /-- the converters: guard before the segmentation array and before `write_arrays` / `NxBackend.write`,
 which are called without `overwrite` -/
 theorem guard_first_converters :
     names (only ["call:check_for_geff", "call:delete_geff", "raise:FileExistsError", "call:open_array",
-                 "call:write_arrays"] fromCtc) =
+                 "call:write_arrays"] (core fromCtc)) =
       ["call:check_for_geff", "call:delete_geff", "raise:FileExistsError", "call:open_array", "call:write_arrays"] ∧
-    guardShape fromCtc 2 "geff_path" = true ∧ detailHas fromCtc 8 "overwrite=absent" = true ∧
-    names preliminaryChecks = ["raise:FileNotFoundError", "call:check_for_geff", "call:delete_geff",
+    guardShape (core fromCtc) 2 "geff_path" = true ∧ detailHas (core fromCtc) 8 "overwrite=absent" = true ∧
+    names (core preliminaryChecks) = ["raise:FileNotFoundError", "call:check_for_geff", "call:delete_geff",
       "raise:FileExistsError"] ∧
-    guardShape preliminaryChecks 1 "geff_path" = true ∧
-    names fromTrackmate = ["call:_preliminary_checks", "call:write"] ∧
-    unconditional fromTrackmate 0 = true ∧ detailHas fromTrackmate 1 "overwrite=absent" = true := by
+    guardShape (core preliminaryChecks) 1 "geff_path" = true ∧
+    names (core fromTrackmate) = ["call:_preliminary_checks", "call:write"] ∧
+    unconditional (core fromTrackmate) 0 = true ∧ detailHas (core fromTrackmate) 1 "overwrite=absent" = true := by
   decide +kernel
 end order
 
